@@ -27,10 +27,10 @@ let rec length = function
 
 (** val app : 'a1 list -> 'a1 list -> 'a1 list **)
 
-let rec app l m =
+let rec app l m0 =
   match l with
-  | [] -> m
-  | a :: l1 -> a :: (app l1 m)
+  | [] -> m0
+  | a :: l1 -> a :: (app l1 m0)
 
 type comparison =
 | Eq
@@ -39,17 +39,24 @@ type comparison =
 
 (** val add : nat -> nat -> nat **)
 
-let rec add n0 m =
+let rec add n0 m0 =
   match n0 with
-  | O -> m
-  | S p -> S (add p m)
+  | O -> m0
+  | S p -> S (add p m0)
+
+(** val mul : nat -> nat -> nat **)
+
+let rec mul n0 m0 =
+  match n0 with
+  | O -> O
+  | S p -> add m0 (mul p m0)
 
 (** val sub : nat -> nat -> nat **)
 
-let rec sub n0 m =
+let rec sub n0 m0 =
   match n0 with
   | O -> n0
-  | S k -> (match m with
+  | S k -> (match m0 with
             | O -> n0
             | S l -> sub k l)
 
@@ -57,35 +64,35 @@ module Nat =
  struct
   (** val eqb : nat -> nat -> bool **)
 
-  let rec eqb n0 m =
+  let rec eqb n0 m0 =
     match n0 with
-    | O -> (match m with
+    | O -> (match m0 with
             | O -> true
             | S _ -> false)
-    | S n' -> (match m with
+    | S n' -> (match m0 with
                | O -> false
                | S m' -> eqb n' m')
 
   (** val leb : nat -> nat -> bool **)
 
-  let rec leb n0 m =
+  let rec leb n0 m0 =
     match n0 with
     | O -> true
-    | S n' -> (match m with
+    | S n' -> (match m0 with
                | O -> false
                | S m' -> leb n' m')
 
   (** val ltb : nat -> nat -> bool **)
 
-  let ltb n0 m =
-    leb (S n0) m
+  let ltb n0 m0 =
+    leb (S n0) m0
 
   (** val min : nat -> nat -> nat **)
 
-  let rec min n0 m =
+  let rec min n0 m0 =
     match n0 with
     | O -> O
-    | S n' -> (match m with
+    | S n' -> (match m0 with
                | O -> O
                | S m' -> S (min n' m'))
 
@@ -102,7 +109,7 @@ module Nat =
 
 let tl = function
 | [] -> []
-| _ :: m -> m
+| _ :: m0 -> m0
 
 (** val nth_error : 'a1 list -> nat -> 'a1 option **)
 
@@ -153,11 +160,32 @@ let rec fold_left f l a0 =
   | [] -> a0
   | b :: t -> fold_left f t (f a0 b)
 
+(** val existsb : ('a1 -> bool) -> 'a1 list -> bool **)
+
+let rec existsb f = function
+| [] -> false
+| a :: l0 -> (||) (f a) (existsb f l0)
+
+(** val forallb : ('a1 -> bool) -> 'a1 list -> bool **)
+
+let rec forallb f = function
+| [] -> true
+| a :: l0 -> (&&) (f a) (forallb f l0)
+
 (** val find : ('a1 -> bool) -> 'a1 list -> 'a1 option **)
 
 let rec find f = function
 | [] -> None
 | x :: tl0 -> if f x then Some x else find f tl0
+
+(** val firstn : nat -> 'a1 list -> 'a1 list **)
+
+let rec firstn n0 l =
+  match n0 with
+  | O -> []
+  | S n1 -> (match l with
+             | [] -> []
+             | a :: l0 -> a :: (firstn n1 l0))
 
 (** val skipn : nat -> 'a1 list -> 'a1 list **)
 
@@ -167,6 +195,12 @@ let rec skipn n0 l =
   | S n1 -> (match l with
              | [] -> []
              | _ :: l0 -> skipn n1 l0)
+
+(** val repeat : 'a1 -> nat -> 'a1 list **)
+
+let rec repeat x = function
+| O -> []
+| S k -> x :: (repeat x k)
 
 type positive =
 | XI of positive
@@ -361,20 +395,20 @@ module N =
 
   (** val add : n -> n -> n **)
 
-  let add n0 m =
+  let add n0 m0 =
     match n0 with
-    | N0 -> m
-    | Npos p -> (match m with
+    | N0 -> m0
+    | Npos p -> (match m0 with
                  | N0 -> n0
                  | Npos q -> Npos (Coq_Pos.add p q))
 
   (** val sub : n -> n -> n **)
 
-  let sub n0 m =
+  let sub n0 m0 =
     match n0 with
     | N0 -> N0
     | Npos n' ->
-      (match m with
+      (match m0 with
        | N0 -> n0
        | Npos m' ->
          (match Coq_Pos.sub_mask n' m' with
@@ -383,32 +417,32 @@ module N =
 
   (** val mul : n -> n -> n **)
 
-  let mul n0 m =
+  let mul n0 m0 =
     match n0 with
     | N0 -> N0
-    | Npos p -> (match m with
+    | Npos p -> (match m0 with
                  | N0 -> N0
                  | Npos q -> Npos (Coq_Pos.mul p q))
 
   (** val compare : n -> n -> comparison **)
 
-  let compare n0 m =
+  let compare n0 m0 =
     match n0 with
-    | N0 -> (match m with
+    | N0 -> (match m0 with
              | N0 -> Eq
              | Npos _ -> Lt)
-    | Npos n' -> (match m with
+    | Npos n' -> (match m0 with
                   | N0 -> Gt
                   | Npos m' -> Coq_Pos.compare n' m')
 
   (** val eqb : n -> n -> bool **)
 
-  let eqb n0 m =
+  let eqb n0 m0 =
     match n0 with
-    | N0 -> (match m with
+    | N0 -> (match m0 with
              | N0 -> true
              | Npos _ -> false)
-    | Npos p -> (match m with
+    | Npos p -> (match m0 with
                  | N0 -> false
                  | Npos q -> Coq_Pos.eqb p q)
 
@@ -1256,6 +1290,12 @@ let file_version_v2 =
   (Npos (XI (XI (XO (XO (XO XH)))))) :: ((Npos (XO (XI (XI (XO (XI (XO
     XH))))))) :: ((Npos (XO (XI (XO (XO (XI XH)))))) :: []))
 
+(** val indent_max : nat **)
+
+let indent_max =
+  S (S (S (S (S (S (S (S (S (S (S (S (S (S (S (S (S (S (S (S (S (S (S (S (S
+    (S (S (S (S (S (S (S O)))))))))))))))))))))))))))))))
+
 (** val default_break_chars : n list **)
 
 let default_break_chars =
@@ -1394,9 +1434,9 @@ let f_entries f =
 (** val f_add : uData -> fhist -> str -> fhist * bool **)
 
 let f_add u f l =
-  let (m, b) = h_add u f.f_mem l in
+  let (m0, b) = h_add u f.f_mem l in
   if b
-  then ({ f_mem = m; f_new = (Nat.min (S f.f_new) (hlen m)); f_pinfo =
+  then ({ f_mem = m0; f_new = (Nat.min (S f.f_new) (hlen m0)); f_pinfo =
          f.f_pinfo }, true)
   else (f, false)
 
@@ -1420,8 +1460,8 @@ type loadres =
 
 let rec load_rest u v2 f app0 = function
 | [] -> LOk ({ f_mem = f.f_mem; f_new = O; f_pinfo = f.f_pinfo }, app0)
-| lb :: t ->
-  (match decode_line lb with
+| lb0 :: t ->
+  (match decode_line lb0 with
    | Some line ->
      (match line with
       | [] -> load_rest u v2 f app0 t
@@ -1441,8 +1481,8 @@ let rec load_rest u v2 f app0 = function
 let load_from u f bytes =
   match split_lines bytes with
   | [] -> LOk ({ f_mem = f.f_mem; f_new = O; f_pinfo = f.f_pinfo }, false)
-  | lb :: t ->
-    (match decode_line lb with
+  | lb0 :: t ->
+    (match decode_line lb0 with
      | Some line ->
        if str_eqb line header
        then load_rest u true f true t
@@ -1965,7 +2005,7 @@ let rec lcp_len fuel k bs =
 
 let rec backoff s n0 = match n0 with
 | O -> O
-| S m -> if is_boundary s n0 then n0 else backoff s m
+| S m0 -> if is_boundary s n0 then n0 else backoff s m0
 
 (** val longest_common_prefix : str list -> str option **)
 
@@ -2060,3 +2100,1525 @@ let complete_path root line =
     (start,
     (filename_complete root (unescape escape_char word) (Some escape_char)
       is_break0 QNone))
+
+(** val slice_from : str -> nat -> str res **)
+
+let slice_from s a =
+  match bsplit s a with
+  | Some p -> let (_, r) = p in Ok r
+  | None -> Panic
+
+(** val slice_to : str -> nat -> str res **)
+
+let slice_to s b =
+  match bsplit s b with
+  | Some p -> let (l, _) = p in Ok l
+  | None -> Panic
+
+(** val slice : str -> nat -> nat -> str res **)
+
+let slice s a b =
+  if Nat.ltb b a
+  then Panic
+  else (match bsplit s a with
+        | Some p ->
+          let (_, r) = p in
+          (match bsplit r (sub b a) with
+           | Some p0 -> let (m0, _) = p0 in Ok m0
+           | None -> Panic)
+        | None -> Panic)
+
+(** val str_drain : str -> nat -> nat -> (str * str) res **)
+
+let str_drain s a b =
+  if Nat.ltb b a
+  then Panic
+  else (match bsplit s a with
+        | Some p ->
+          let (l, r) = p in
+          (match bsplit r (sub b a) with
+           | Some p0 -> let (m0, r') = p0 in Ok (m0, (app l r'))
+           | None -> Panic)
+        | None -> Panic)
+
+(** val str_insert : str -> nat -> str -> str res **)
+
+let str_insert s idx t =
+  match bsplit s idx with
+  | Some p -> let (l, r) = p in Ok (app l (app t r))
+  | None -> Panic
+
+(** val find_char : n -> str -> nat option **)
+
+let rec find_char c = function
+| [] -> None
+| x :: t ->
+  if N.eqb x c
+  then Some O
+  else (match find_char c t with
+        | Some k -> Some (add (clen x) k)
+        | None -> None)
+
+(** val rfind_char : n -> str -> nat option **)
+
+let rec rfind_char c = function
+| [] -> None
+| x :: t ->
+  (match rfind_char c t with
+   | Some k -> Some (add (clen x) k)
+   | None -> if N.eqb x c then Some O else None)
+
+(** val lF : n **)
+
+let lF =
+  Npos (XO (XI (XO XH)))
+
+type word_def =
+| WBig
+| WEmacs
+| WVi
+
+type at_pos =
+| AtStart
+| AtBeforeEnd
+| AtAfterEnd
+
+type char_search =
+| CsForward of n
+| CsForwardBefore of n
+| CsBackward of n
+| CsBackwardAfter of n
+
+type movement =
+| MWholeLine
+| MBeginningOfLine
+| MEndOfLine
+| MBackwardWord of nat * word_def
+| MForwardWord of nat * at_pos * word_def
+| MViCharSearch of nat * char_search
+| MViFirstPrint
+| MBackwardChar of nat
+| MForwardChar of nat
+| MLineUp of nat
+| MLineDown of nat
+| MWholeBuffer
+| MBeginningOfBuffer
+| MEndOfBuffer
+
+type word_action =
+| Capitalize
+| Lowercase
+| Uppercase
+
+type direction =
+| DForward
+| DBackward
+
+type event =
+| EInsertChar of nat * n
+| EInsertStr of nat * str
+| EDelete of nat * str * direction
+| EReplace of nat * str * str
+| EStartKill
+| EStopKill
+
+type lb = { buf : str; pos : nat; cap : nat; grow : bool }
+
+(** val lb_len : lb -> nat **)
+
+let lb_len b =
+  blen b.buf
+
+(** val set_buf : lb -> str -> lb **)
+
+let set_buf b s =
+  { buf = s; pos = b.pos; cap = b.cap; grow = b.grow }
+
+(** val set_pos' : lb -> nat -> lb **)
+
+let set_pos' b p =
+  { buf = b.buf; pos = p; cap = b.cap; grow = b.grow }
+
+(** val must_truncate : lb -> nat -> bool **)
+
+let must_truncate b new_len =
+  (&&) (negb b.grow) (Nat.ltb b.cap new_len)
+
+(** val index_from : nat -> str list -> (nat * str) list **)
+
+let rec index_from i = function
+| [] -> []
+| g :: t -> (i, g) :: (index_from (add i (blen g)) t)
+
+(** val gindices : (str -> str list) -> str -> (nat * str) list **)
+
+let gindices seg s =
+  index_from O (seg s)
+
+type 'a m = lb -> (('a * lb) * event list) res
+
+(** val ret : 'a1 -> 'a1 m **)
+
+let ret a b =
+  Ok ((a, b), [])
+
+(** val bind : 'a1 m -> ('a1 -> 'a2 m) -> 'a2 m **)
+
+let bind m0 f b =
+  match m0 b with
+  | Ok a0 ->
+    let (p, e1) = a0 in
+    let (a, b1) = p in
+    (match f a b1 with
+     | Ok a1 -> let (p0, e2) = a1 in Ok (p0, (app e1 e2))
+     | Panic -> Panic)
+  | Panic -> Panic
+
+(** val get : lb m **)
+
+let get b =
+  Ok ((b, b), [])
+
+(** val put_pos : nat -> unit m **)
+
+let put_pos p b =
+  Ok (((), (set_pos' b p)), [])
+
+(** val fail : 'a1 m **)
+
+let fail _ =
+  Panic
+
+(** val lift : 'a1 res -> 'a1 m **)
+
+let lift r b =
+  match r with
+  | Ok a -> Ok ((a, b), [])
+  | Panic -> Panic
+
+(** val emit : event -> unit m **)
+
+let emit e b =
+  Ok (((), b), (e :: []))
+
+(** val drain : nat -> nat -> direction -> str m **)
+
+let drain a b' d b =
+  match str_drain b.buf a b' with
+  | Ok a0 ->
+    let (m0, rest) = a0 in
+    Ok ((m0, (set_buf b rest)), ((EDelete (a, m0, d)) :: []))
+  | Panic -> Panic
+
+(** val insert_str : nat -> str -> bool m **)
+
+let insert_str idx s b =
+  match str_insert b.buf idx s with
+  | Ok nb ->
+    Ok (((Nat.eqb idx (lb_len b)), (set_buf b nb)), ((EInsertStr (idx,
+      s)) :: []))
+  | Panic -> Panic
+
+(** val insert_char_at : nat -> n -> unit m **)
+
+let insert_char_at idx c b =
+  match str_insert b.buf idx (c :: []) with
+  | Ok nb -> Ok (((), (set_buf b nb)), ((EInsertChar (idx, c)) :: []))
+  | Panic -> Panic
+
+(** val replace_range : nat -> nat -> str -> unit m **)
+
+let replace_range a b' text b =
+  match slice b.buf a b' with
+  | Ok old ->
+    (match str_drain b.buf a b' with
+     | Ok a0 ->
+       let (_, rest) = a0 in
+       (match str_insert rest a text with
+        | Ok nb ->
+          Ok (((), { buf = nb; pos = (add a (blen text)); cap = b.cap; grow =
+            b.grow }), ((EReplace (a, old, text)) :: []))
+        | Panic -> Panic)
+     | Panic -> Panic)
+  | Panic -> Panic
+
+(** val end_of_line : lb -> nat res **)
+
+let end_of_line b =
+  match slice_from b.buf b.pos with
+  | Ok r ->
+    Ok (match find_char lF r with
+        | Some n0 -> add n0 b.pos
+        | None -> lb_len b)
+  | Panic -> Panic
+
+(** val start_of_line : lb -> nat res **)
+
+let start_of_line b =
+  match slice_to b.buf b.pos with
+  | Ok l -> Ok (match rfind_char lF l with
+                | Some i -> add i (S O)
+                | None -> O)
+  | Panic -> Panic
+
+(** val last_opt0 : 'a1 list -> 'a1 option **)
+
+let rec last_opt0 = function
+| [] -> None
+| x :: t -> (match t with
+             | [] -> Some x
+             | _ :: _ -> last_opt0 t)
+
+(** val next_pos : (str -> str list) -> lb -> nat -> nat option res **)
+
+let next_pos seg b n0 =
+  if Nat.eqb b.pos (lb_len b)
+  then Ok None
+  else (match slice_from b.buf b.pos with
+        | Ok r ->
+          Ok
+            (match last_opt0 (firstn n0 (gindices seg r)) with
+             | Some p -> let (i, s) = p in Some (add (add i b.pos) (blen s))
+             | None -> None)
+        | Panic -> Panic)
+
+(** val prev_pos : (str -> str list) -> lb -> nat -> nat option res **)
+
+let prev_pos seg b n0 =
+  if Nat.eqb b.pos O
+  then Ok None
+  else (match slice_to b.buf b.pos with
+        | Ok l ->
+          Ok
+            (match last_opt0 (firstn n0 (rev (gindices seg l))) with
+             | Some p -> let (i, _) = p in Some i
+             | None -> None)
+        | Panic -> Panic)
+
+(** val all_alnum : uData -> str -> bool **)
+
+let all_alnum u g =
+  forallb u.u_is_alphanumeric g
+
+(** val any_ws : uData -> str -> bool **)
+
+let any_ws u g =
+  existsb u.u_is_whitespace g
+
+(** val is_vi_word_char : uData -> str -> bool **)
+
+let is_vi_word_char u g =
+  (||) (all_alnum u g)
+    (str_eqb g ((Npos (XI (XI (XI (XI (XI (XO XH))))))) :: []))
+
+(** val is_other_char : uData -> str -> bool **)
+
+let is_other_char u g =
+  negb ((||) (any_ws u g) (is_vi_word_char u g))
+
+(** val is_word_char : uData -> word_def -> str -> bool **)
+
+let is_word_char u w g =
+  match w with
+  | WBig -> negb (any_ws u g)
+  | WEmacs -> all_alnum u g
+  | WVi -> is_vi_word_char u g
+
+(** val is_vi : word_def -> bool **)
+
+let is_vi = function
+| WVi -> true
+| _ -> false
+
+(** val is_emacs : word_def -> bool **)
+
+let is_emacs = function
+| WEmacs -> true
+| _ -> false
+
+(** val is_start_of_word : uData -> word_def -> str -> str -> bool **)
+
+let is_start_of_word u w previous g =
+  (||) ((&&) (negb (is_word_char u w previous)) (is_word_char u w g))
+    ((&&) ((&&) (is_vi w) (negb (is_other_char u previous)))
+      (is_other_char u g))
+
+(** val is_end_of_word : uData -> word_def -> str -> str -> bool **)
+
+let is_end_of_word u w g next =
+  (||) ((&&) (negb (is_word_char u w next)) (is_word_char u w g))
+    ((&&) ((&&) (is_vi w) (negb (is_other_char u next))) (is_other_char u g))
+
+(** val pw_inner :
+    uData -> word_def -> (nat * str) -> (nat * str) list ->
+    (nat * (nat * str) list) option **)
+
+let rec pw_inner u w gj = function
+| [] -> None
+| gi :: rest ->
+  if is_start_of_word u w (snd gi) (snd gj)
+  then Some ((fst gj), rest)
+  else pw_inner u w gi rest
+
+(** val pw_outer :
+    uData -> word_def -> nat -> (nat * str) list -> nat -> nat **)
+
+let rec pw_outer u w n0 gis sow =
+  match n0 with
+  | O -> sow
+  | S n' ->
+    (match gis with
+     | [] -> O
+     | gj :: rest ->
+       (match pw_inner u w gj rest with
+        | Some p -> let (s, rest') = p in pw_outer u w n' rest' s
+        | None -> O))
+
+(** val prev_word_pos :
+    uData -> (str -> str list) -> lb -> nat -> word_def -> nat -> nat option
+    res **)
+
+let prev_word_pos u seg b p w n0 =
+  if Nat.eqb p O
+  then Ok None
+  else (match slice_to b.buf p with
+        | Ok l -> Ok (Some (pw_outer u w n0 (rev (gindices seg l)) O))
+        | Panic -> Panic)
+
+(** val at_is_start : at_pos -> bool **)
+
+let at_is_start = function
+| AtStart -> true
+| _ -> false
+
+(** val at_is_after : at_pos -> bool **)
+
+let at_is_after = function
+| AtAfterEnd -> true
+| _ -> false
+
+(** val at_is_before : at_pos -> bool **)
+
+let at_is_before = function
+| AtBeforeEnd -> true
+| _ -> false
+
+(** val nw_inner :
+    uData -> at_pos -> word_def -> (nat * str) -> (nat * str) list ->
+    (nat * (nat * str) list) option * (nat * str) **)
+
+let rec nw_inner u a w gi = function
+| [] -> (None, gi)
+| gj :: rest ->
+  if (&&) (at_is_start a) (is_start_of_word u w (snd gi) (snd gj))
+  then ((Some ((fst gj), rest)), gi)
+  else if (&&) (negb (at_is_start a)) (is_end_of_word u w (snd gi) (snd gj))
+       then ((Some
+              ((if (||) (is_emacs w) (at_is_after a) then fst gj else fst gi),
+              rest)), gi)
+       else nw_inner u a w gj rest
+
+(** val nw_outer :
+    uData -> at_pos -> word_def -> nat -> (nat * str) list -> nat ->
+    (nat * str) option -> nat * (nat * str) option **)
+
+let rec nw_outer u a w n0 gis wp gi =
+  match n0 with
+  | O -> (wp, gi)
+  | S n' ->
+    (match gis with
+     | [] -> (O, None)
+     | g :: rest ->
+       let (o, g') = nw_inner u a w g rest in
+       (match o with
+        | Some p ->
+          let (wp', rest') = p in nw_outer u a w n' rest' wp' (Some g')
+        | None -> (O, (Some g'))))
+
+(** val next_word_pos :
+    uData -> (str -> str list) -> lb -> nat -> at_pos -> word_def -> nat ->
+    nat option res **)
+
+let next_word_pos u seg b p a w n0 =
+  if Nat.eqb p (lb_len b)
+  then Ok None
+  else (match slice_from b.buf p with
+        | Ok r ->
+          let gis = gindices seg r in
+          if at_is_before a
+          then (match gis with
+                | [] ->
+                  let gi0 = None in
+                  let gis0 = [] in
+                  let (wp, gi) = nw_outer u a w n0 gis0 O gi0 in
+                  Ok
+                  (if Nat.eqb wp O
+                   then if (||) (is_emacs w) (at_is_after a)
+                        then Some (lb_len b)
+                        else (match gi with
+                              | Some p0 ->
+                                let (i, _) = p0 in
+                                if Nat.eqb i O then None else Some (add i p)
+                              | None -> None)
+                   else Some (add wp p))
+                | g :: t ->
+                  let gi0 = Some g in
+                  let (wp, gi) = nw_outer u a w n0 t O gi0 in
+                  Ok
+                  (if Nat.eqb wp O
+                   then if (||) (is_emacs w) (at_is_after a)
+                        then Some (lb_len b)
+                        else (match gi with
+                              | Some p0 ->
+                                let (i, _) = p0 in
+                                if Nat.eqb i O then None else Some (add i p)
+                              | None -> None)
+                   else Some (add wp p)))
+          else let gi0 = None in
+               let (wp, gi) = nw_outer u a w n0 gis O gi0 in
+               Ok
+               (if Nat.eqb wp O
+                then if (||) (is_emacs w) (at_is_after a)
+                     then Some (lb_len b)
+                     else (match gi with
+                           | Some p0 ->
+                             let (i, _) = p0 in
+                             if Nat.eqb i O then None else Some (add i p)
+                           | None -> None)
+                else Some (add wp p))
+        | Panic -> Panic)
+
+(** val char_hits : n -> str -> nat -> nat list **)
+
+let rec char_hits c s i =
+  match s with
+  | [] -> []
+  | x :: t ->
+    if N.eqb x c
+    then i :: (char_hits c t (add i (clen x)))
+    else char_hits c t (add i (clen x))
+
+(** val last_char_len : str -> nat option **)
+
+let rec last_char_len = function
+| [] -> None
+| x :: t -> (match t with
+             | [] -> Some (clen x)
+             | _ :: _ -> last_char_len t)
+
+(** val search_char_pos :
+    (str -> str list) -> lb -> char_search -> nat -> nat option res **)
+
+let search_char_pos seg b cs n0 =
+  match cs with
+  | CsForward c ->
+    if Nat.eqb b.pos (lb_len b)
+    then Ok None
+    else (match slice_from b.buf b.pos with
+          | Ok r ->
+            (match seg r with
+             | [] -> Ok None
+             | cc :: _ ->
+               let shift = add b.pos (blen cc) in
+               if Nat.ltb shift (lb_len b)
+               then (match slice_from b.buf shift with
+                     | Ok r2 ->
+                       (match last_opt0 (firstn n0 (char_hits c r2 O)) with
+                        | Some p ->
+                          (match cs with
+                           | CsForwardBefore _ ->
+                             (match slice_to b.buf (add shift p) with
+                              | Ok l2 ->
+                                (match last_char_len l2 with
+                                 | Some k -> Ok (Some (sub (add shift p) k))
+                                 | None -> Panic)
+                              | Panic -> Panic)
+                           | _ -> Ok (Some (add shift p)))
+                        | None -> Ok None)
+                     | Panic -> Panic)
+               else Ok None)
+          | Panic -> Panic)
+  | CsForwardBefore c ->
+    if Nat.eqb b.pos (lb_len b)
+    then Ok None
+    else (match slice_from b.buf b.pos with
+          | Ok r ->
+            (match seg r with
+             | [] -> Ok None
+             | cc :: _ ->
+               let shift = add b.pos (blen cc) in
+               if Nat.ltb shift (lb_len b)
+               then (match slice_from b.buf shift with
+                     | Ok r2 ->
+                       (match last_opt0 (firstn n0 (char_hits c r2 O)) with
+                        | Some p ->
+                          (match cs with
+                           | CsForwardBefore _ ->
+                             (match slice_to b.buf (add shift p) with
+                              | Ok l2 ->
+                                (match last_char_len l2 with
+                                 | Some k -> Ok (Some (sub (add shift p) k))
+                                 | None -> Panic)
+                              | Panic -> Panic)
+                           | _ -> Ok (Some (add shift p)))
+                        | None -> Ok None)
+                     | Panic -> Panic)
+               else Ok None)
+          | Panic -> Panic)
+  | CsBackward c ->
+    (match slice_to b.buf b.pos with
+     | Ok l ->
+       (match last_opt0 (firstn n0 (rev (char_hits c l O))) with
+        | Some p ->
+          Ok (Some
+            (match cs with
+             | CsBackwardAfter _ -> add p (clen c)
+             | _ -> p))
+        | None -> Ok None)
+     | Panic -> Panic)
+  | CsBackwardAfter c ->
+    (match slice_to b.buf b.pos with
+     | Ok l ->
+       (match last_opt0 (firstn n0 (rev (char_hits c l O))) with
+        | Some p ->
+          Ok (Some
+            (match cs with
+             | CsBackwardAfter _ -> add p (clen c)
+             | _ -> p))
+        | None -> Ok None)
+     | Panic -> Panic)
+
+(** val lines_up_loop : str -> nat -> nat -> nat res **)
+
+let rec lines_up_loop s n0 start =
+  match n0 with
+  | O -> Ok start
+  | S n' ->
+    if Nat.eqb start O
+    then Panic
+    else (match slice_to s (sub start (S O)) with
+          | Ok l ->
+            (match rfind_char lF l with
+             | Some off -> lines_up_loop s n' (add off (S O))
+             | None -> Ok O)
+          | Panic -> Panic)
+
+(** val n_lines_up : lb -> nat -> (nat * nat) option res **)
+
+let n_lines_up b n0 =
+  match slice_to b.buf b.pos with
+  | Ok l ->
+    (match slice_from b.buf b.pos with
+     | Ok r ->
+       (match rfind_char lF l with
+        | Some off ->
+          let e =
+            match find_char lF r with
+            | Some x -> add (add b.pos x) (S O)
+            | None -> lb_len b
+          in
+          (match lines_up_loop b.buf n0 (add off (S O)) with
+           | Ok s -> Ok (Some (s, e))
+           | Panic -> Panic)
+        | None -> Ok None)
+     | Panic -> Panic)
+  | Panic -> Panic
+
+(** val lines_down_loop : str -> nat -> nat -> nat -> nat res **)
+
+let rec lines_down_loop s len n0 e =
+  match n0 with
+  | O -> Ok e
+  | S n' ->
+    (match slice_from s e with
+     | Ok r ->
+       (match find_char lF r with
+        | Some off -> lines_down_loop s len n' (add (add e off) (S O))
+        | None -> Ok len)
+     | Panic -> Panic)
+
+(** val n_lines_down : lb -> nat -> (nat * nat) option res **)
+
+let n_lines_down b n0 =
+  match slice_to b.buf b.pos with
+  | Ok l ->
+    (match slice_from b.buf b.pos with
+     | Ok r ->
+       (match find_char lF r with
+        | Some off ->
+          let s = match rfind_char lF l with
+                  | Some i -> add i (S O)
+                  | None -> O
+          in
+          (match lines_down_loop b.buf (lb_len b) n0
+                   (add (add b.pos off) (S O)) with
+           | Ok e -> Ok (Some (s, e))
+           | Panic -> Panic)
+        | None -> Ok None)
+     | Panic -> Panic)
+  | Panic -> Panic
+
+(** val set_pos : nat -> unit m **)
+
+let set_pos p =
+  bind get (fun b -> if Nat.ltb (lb_len b) p then fail else put_pos p)
+
+(** val move_backward : (str -> str list) -> nat -> bool m **)
+
+let move_backward seg n0 =
+  bind get (fun b ->
+    bind (lift (prev_pos seg b n0)) (fun r ->
+      match r with
+      | Some p -> bind (put_pos p) (fun _ -> ret true)
+      | None -> ret false))
+
+(** val move_forward : (str -> str list) -> nat -> bool m **)
+
+let move_forward seg n0 =
+  bind get (fun b ->
+    bind (lift (next_pos seg b n0)) (fun r ->
+      match r with
+      | Some p -> bind (put_pos p) (fun _ -> ret true)
+      | None -> ret false))
+
+(** val move_buffer_start : bool m **)
+
+let move_buffer_start =
+  bind get (fun b ->
+    if Nat.ltb O b.pos
+    then bind (put_pos O) (fun _ -> ret true)
+    else ret false)
+
+(** val move_buffer_end : bool m **)
+
+let move_buffer_end =
+  bind get (fun b ->
+    if Nat.eqb b.pos (lb_len b)
+    then ret false
+    else bind (put_pos (lb_len b)) (fun _ -> ret true))
+
+(** val move_home : bool m **)
+
+let move_home =
+  bind get (fun b ->
+    bind (lift (start_of_line b)) (fun s ->
+      if Nat.ltb s b.pos
+      then bind (put_pos s) (fun _ -> ret true)
+      else ret false))
+
+(** val move_end : bool m **)
+
+let move_end =
+  bind get (fun b ->
+    bind (lift (end_of_line b)) (fun e ->
+      if Nat.eqb b.pos e
+      then ret false
+      else bind (put_pos e) (fun _ -> ret true)))
+
+(** val trim_end_len : uData -> str -> nat **)
+
+let rec trim_end_len u = function
+| [] -> O
+| c :: t ->
+  let k = trim_end_len u t in
+  if Nat.eqb k O
+  then if u.u_is_whitespace c then O else clen c
+  else add (clen c) k
+
+(** val is_end_of_input : uData -> lb -> bool **)
+
+let is_end_of_input u b =
+  Nat.leb (trim_end_len u b.buf) b.pos
+
+(** val repeat_str : str -> nat -> str **)
+
+let rec repeat_str s = function
+| O -> []
+| S n' -> app s (repeat_str s n')
+
+(** val insert : n -> nat -> bool option m **)
+
+let insert c n0 =
+  bind get (fun b ->
+    let shift = mul (clen c) n0 in
+    if must_truncate b (add (lb_len b) shift)
+    then ret None
+    else let push = Nat.eqb b.pos (lb_len b) in
+         bind
+           (if Nat.eqb n0 (S O)
+            then insert_char_at b.pos c
+            else bind (insert_str b.pos (repeat_str (c :: []) n0)) (fun _ ->
+                   ret ())) (fun _ ->
+           bind (put_pos (add b.pos shift)) (fun _ -> ret (Some push))))
+
+(** val yank : str -> nat -> bool option m **)
+
+let yank text n0 =
+  bind get (fun b ->
+    let shift = mul (blen text) n0 in
+    (match text with
+     | [] -> ret None
+     | _ :: _ ->
+       if must_truncate b (add (lb_len b) shift)
+       then ret None
+       else let push = Nat.eqb b.pos (lb_len b) in
+            bind
+              (bind
+                (insert_str b.pos
+                  (if Nat.eqb n0 (S O) then text else repeat_str text n0))
+                (fun _ -> ret ())) (fun _ ->
+              bind (put_pos (add b.pos shift)) (fun _ -> ret (Some push)))))
+
+(** val yank_pop : nat -> str -> bool option m **)
+
+let yank_pop yank_size text =
+  bind get (fun b ->
+    let e = b.pos in
+    if Nat.ltb e yank_size
+    then fail
+    else bind (drain (sub e yank_size) e DForward) (fun _ ->
+           bind (put_pos (sub e yank_size)) (fun _ -> yank text (S O))))
+
+(** val delete : (str -> str list) -> nat -> str option m **)
+
+let delete seg n0 =
+  bind get (fun b ->
+    bind (lift (next_pos seg b n0)) (fun r ->
+      match r with
+      | Some p -> bind (drain b.pos p DForward) (fun s -> ret (Some s))
+      | None -> ret None))
+
+(** val backspace : (str -> str list) -> nat -> bool m **)
+
+let backspace seg n0 =
+  bind get (fun b ->
+    bind (lift (prev_pos seg b n0)) (fun r ->
+      match r with
+      | Some p ->
+        bind (drain p b.pos DBackward) (fun _ ->
+          bind (put_pos p) (fun _ -> ret true))
+      | None -> ret false))
+
+(** val kill_line : (str -> str list) -> bool m **)
+
+let kill_line seg =
+  bind get (fun b ->
+    if (&&) (negb (Nat.eqb (lb_len b) O)) (Nat.ltb b.pos (lb_len b))
+    then bind (lift (end_of_line b)) (fun e ->
+           bind
+             (if Nat.eqb b.pos e
+              then bind (delete seg (S O)) (fun _ -> ret ())
+              else bind (drain b.pos e DForward) (fun _ -> ret ())) (fun _ ->
+             ret true))
+    else ret false)
+
+(** val kill_buffer : bool m **)
+
+let kill_buffer =
+  bind get (fun b ->
+    if (&&) (negb (Nat.eqb (lb_len b) O)) (Nat.ltb b.pos (lb_len b))
+    then bind (drain b.pos (lb_len b) DForward) (fun _ -> ret true)
+    else ret false)
+
+(** val discard_line : (str -> str list) -> bool m **)
+
+let discard_line seg =
+  bind get (fun b ->
+    if (&&) (Nat.ltb O b.pos) (negb (Nat.eqb (lb_len b) O))
+    then bind (lift (start_of_line b)) (fun s ->
+           if Nat.eqb b.pos s
+           then backspace seg (S O)
+           else bind (drain s b.pos DBackward) (fun _ ->
+                  bind (put_pos s) (fun _ -> ret true)))
+    else ret false)
+
+(** val discard_buffer : bool m **)
+
+let discard_buffer =
+  bind get (fun b ->
+    if (&&) (Nat.ltb O b.pos) (negb (Nat.eqb (lb_len b) O))
+    then bind (drain O b.pos DBackward) (fun _ ->
+           bind (put_pos O) (fun _ -> ret true))
+    else ret false)
+
+(** val transpose_chars : (str -> str list) -> bool m **)
+
+let transpose_chars seg =
+  bind get (fun b ->
+    if (||) (Nat.eqb b.pos O) (Nat.ltb (length (seg b.buf)) (S (S O)))
+    then ret false
+    else bind
+           (if Nat.eqb b.pos (lb_len b)
+            then bind (move_backward seg (S O)) (fun _ -> ret ())
+            else ret ()) (fun _ ->
+           bind (delete seg (S O)) (fun r ->
+             match r with
+             | Some chars ->
+               bind (move_backward seg (S O)) (fun _ ->
+                 bind (yank chars (S O)) (fun _ ->
+                   bind (move_forward seg (S O)) (fun _ -> ret true)))
+             | None -> fail)))
+
+(** val move_to_prev_word :
+    uData -> (str -> str list) -> word_def -> nat -> bool m **)
+
+let move_to_prev_word u seg w n0 =
+  bind get (fun b ->
+    bind (lift (prev_word_pos u seg b b.pos w n0)) (fun r ->
+      match r with
+      | Some p -> bind (put_pos p) (fun _ -> ret true)
+      | None -> ret false))
+
+(** val delete_prev_word :
+    uData -> (str -> str list) -> word_def -> nat -> bool m **)
+
+let delete_prev_word u seg w n0 =
+  bind get (fun b ->
+    bind (lift (prev_word_pos u seg b b.pos w n0)) (fun r ->
+      match r with
+      | Some p ->
+        bind (drain p b.pos DBackward) (fun _ ->
+          bind (put_pos p) (fun _ -> ret true))
+      | None -> ret false))
+
+(** val move_to_next_word :
+    uData -> (str -> str list) -> at_pos -> word_def -> nat -> bool m **)
+
+let move_to_next_word u seg a w n0 =
+  bind get (fun b ->
+    bind (lift (next_word_pos u seg b b.pos a w n0)) (fun r ->
+      match r with
+      | Some p -> bind (put_pos p) (fun _ -> ret true)
+      | None -> ret false))
+
+(** val delete_word :
+    uData -> (str -> str list) -> at_pos -> word_def -> nat -> bool m **)
+
+let delete_word u seg a w n0 =
+  bind get (fun b ->
+    bind (lift (next_word_pos u seg b b.pos a w n0)) (fun r ->
+      match r with
+      | Some p -> bind (drain b.pos p DForward) (fun _ -> ret true)
+      | None -> ret false))
+
+(** val move_to : (str -> str list) -> char_search -> nat -> bool m **)
+
+let move_to seg cs n0 =
+  bind get (fun b ->
+    bind (lift (search_char_pos seg b cs n0)) (fun r ->
+      match r with
+      | Some p -> bind (put_pos p) (fun _ -> ret true)
+      | None -> ret false))
+
+(** val delete_to : (str -> str list) -> char_search -> nat -> bool m **)
+
+let delete_to seg cs n0 =
+  bind get (fun b ->
+    bind
+      (lift
+        (match cs with
+         | CsForwardBefore c -> search_char_pos seg b (CsForward c) n0
+         | _ -> search_char_pos seg b cs n0)) (fun r ->
+      match r with
+      | Some p ->
+        (match cs with
+         | CsForward c ->
+           bind (drain b.pos (add p (clen c)) DForward) (fun _ -> ret true)
+         | CsForwardBefore _ ->
+           bind (drain b.pos p DForward) (fun _ -> ret true)
+         | _ ->
+           bind (put_pos p) (fun _ ->
+             bind (drain p b.pos DBackward) (fun _ -> ret true)))
+      | None -> ret false))
+
+(** val first_alnum : uData -> (nat * str) list -> nat option **)
+
+let rec first_alnum u = function
+| [] -> None
+| p :: t ->
+  let (i, g) = p in if all_alnum u g then Some i else first_alnum u t
+
+(** val skip_whitespace :
+    uData -> (str -> str list) -> lb -> nat option res **)
+
+let skip_whitespace u seg b =
+  if Nat.eqb b.pos (lb_len b)
+  then Ok None
+  else (match slice_from b.buf b.pos with
+        | Ok r ->
+          Ok
+            (match first_alnum u (gindices seg r) with
+             | Some i -> Some (add i b.pos)
+             | None -> None)
+        | Panic -> Panic)
+
+(** val to_upper : uData -> str -> str **)
+
+let to_upper u s =
+  flat_map u.u_to_upper s
+
+(** val to_lower : uData -> str -> str **)
+
+let to_lower u s =
+  flat_map u.u_to_lower s
+
+(** val edit_word : uData -> (str -> str list) -> word_action -> bool m **)
+
+let edit_word u seg a =
+  bind get (fun b ->
+    bind (lift (skip_whitespace u seg b)) (fun r ->
+      match r with
+      | Some start ->
+        bind (lift (next_word_pos u seg b start AtAfterEnd WEmacs (S O)))
+          (fun r2 ->
+          match r2 with
+          | Some e ->
+            if Nat.eqb start e
+            then ret false
+            else bind (drain start e DForward) (fun word ->
+                   bind
+                     (lift
+                       (match a with
+                        | Capitalize ->
+                          (match seg word with
+                           | [] -> Panic
+                           | ch :: _ ->
+                             (match slice_from word (blen ch) with
+                              | Ok rest ->
+                                Ok (app (to_upper u ch) (to_lower u rest))
+                              | Panic -> Panic))
+                        | Lowercase -> Ok (to_lower u word)
+                        | Uppercase -> Ok (to_upper u word))) (fun result ->
+                     bind (insert_str start result) (fun _ ->
+                       bind (put_pos (add start (blen result))) (fun _ ->
+                         ret true))))
+          | None -> ret false)
+      | None -> ret false))
+
+(** val transpose_words : uData -> (str -> str list) -> nat -> bool m **)
+
+let transpose_words u seg n0 =
+  bind (move_to_next_word u seg AtAfterEnd WEmacs n0) (fun _ ->
+    bind get (fun b1 ->
+      let w2_end = b1.pos in
+      bind (move_to_prev_word u seg WEmacs (S O)) (fun _ ->
+        bind get (fun b2 ->
+          let w2_beg = b2.pos in
+          bind (move_to_prev_word u seg WEmacs n0) (fun _ ->
+            bind get (fun b3 ->
+              let w1_beg = b3.pos in
+              bind (move_to_next_word u seg AtAfterEnd WEmacs (S O))
+                (fun _ ->
+                bind get (fun b4 ->
+                  let w1_end = b4.pos in
+                  if (||) (Nat.eqb w1_beg w2_beg) (Nat.ltb w2_beg w1_end)
+                  then ret false
+                  else bind (lift (slice b4.buf w1_beg w1_end)) (fun w1 ->
+                         bind (drain w2_beg w2_end DForward) (fun w2 ->
+                           bind (insert_str w2_beg w1) (fun _ ->
+                             bind (drain w1_beg w1_end DForward) (fun _ ->
+                               bind (insert_str w1_beg w2) (fun _ ->
+                                 bind (put_pos w2_end) (fun _ -> ret true))))))))))))))
+
+(** val replace : nat -> nat -> str -> unit m **)
+
+let replace =
+  replace_range
+
+(** val delete_range : nat -> nat -> unit m **)
+
+let delete_range a b' =
+  bind (set_pos a) (fun _ -> bind (drain a b' DForward) (fun _ -> ret ()))
+
+(** val boundary_down : str -> nat -> nat -> nat **)
+
+let rec boundary_down s k m0 =
+  match k with
+  | O -> O
+  | S k' -> if is_boundary s m0 then m0 else boundary_down s k' (sub m0 (S O))
+
+(** val update : str -> nat -> unit m **)
+
+let update s p =
+  if Nat.ltb (blen s) p
+  then fail
+  else bind get (fun b ->
+         bind (drain O (lb_len b) DForward) (fun _ ->
+           if must_truncate b (blen s)
+           then let mx = boundary_down s (S b.cap) b.cap in
+                bind (lift (slice_to s mx)) (fun t ->
+                  bind (insert_str O t) (fun _ -> put_pos (Nat.min mx p)))
+           else bind (insert_str O s) (fun _ -> put_pos p)))
+
+(** val vi_first_print_pos :
+    uData -> (str -> str list) -> lb -> nat option res **)
+
+let vi_first_print_pos u seg b =
+  match b.buf with
+  | [] -> Ok (Some O)
+  | c :: _ ->
+    if u.u_is_whitespace c
+    then next_word_pos u seg b O AtStart WBig (S O)
+    else Ok (Some O)
+
+(** val copy :
+    uData -> (str -> str list) -> lb -> movement -> str option res **)
+
+let copy u seg b m0 =
+  if Nat.eqb (lb_len b) O
+  then Ok None
+  else let sl = fun a e ->
+         match slice b.buf a e with
+         | Ok s -> Ok (Some s)
+         | Panic -> Panic
+       in
+       let opt_map = fun r f ->
+         match r with
+         | Ok a -> (match a with
+                    | Some p -> f p
+                    | None -> Ok None)
+         | Panic -> Panic
+       in
+       (match m0 with
+        | MWholeLine ->
+          (match start_of_line b with
+           | Ok s ->
+             (match end_of_line b with
+              | Ok e -> if Nat.eqb s e then Ok None else sl s e
+              | Panic -> Panic)
+           | Panic -> Panic)
+        | MBeginningOfLine ->
+          (match start_of_line b with
+           | Ok s -> if Nat.eqb b.pos s then Ok None else sl s b.pos
+           | Panic -> Panic)
+        | MEndOfLine ->
+          (match end_of_line b with
+           | Ok e -> if Nat.eqb b.pos e then Ok None else sl b.pos e
+           | Panic -> Panic)
+        | MBackwardWord (n0, w) ->
+          opt_map (prev_word_pos u seg b b.pos w n0) (fun p -> sl p b.pos)
+        | MForwardWord (n0, a, w) ->
+          opt_map (next_word_pos u seg b b.pos a w n0) (fun p -> sl b.pos p)
+        | MViCharSearch (n0, cs) ->
+          opt_map
+            (match cs with
+             | CsForwardBefore c -> search_char_pos seg b (CsForward c) n0
+             | _ -> search_char_pos seg b cs n0) (fun p ->
+            match cs with
+            | CsForward c -> sl b.pos (add p (clen c))
+            | CsForwardBefore _ -> sl b.pos p
+            | _ -> sl p b.pos)
+        | MViFirstPrint ->
+          opt_map (vi_first_print_pos u seg b) (fun p ->
+            if Nat.ltb p b.pos
+            then sl p b.pos
+            else if Nat.ltb b.pos p then sl b.pos p else Ok None)
+        | MBackwardChar n0 ->
+          opt_map (prev_pos seg b n0) (fun p -> sl p b.pos)
+        | MForwardChar n0 -> opt_map (next_pos seg b n0) (fun p -> sl b.pos p)
+        | MLineUp n0 ->
+          (match n_lines_up b n0 with
+           | Ok a ->
+             (match a with
+              | Some p -> let (s, e) = p in sl s e
+              | None -> Ok None)
+           | Panic -> Panic)
+        | MLineDown n0 ->
+          (match n_lines_down b n0 with
+           | Ok a ->
+             (match a with
+              | Some p -> let (s, e) = p in sl s e
+              | None -> Ok None)
+           | Panic -> Panic)
+        | MWholeBuffer -> Ok (Some b.buf)
+        | MBeginningOfBuffer ->
+          if Nat.eqb b.pos O then Ok None else sl O b.pos
+        | MEndOfBuffer ->
+          if Nat.eqb b.pos (lb_len b) then Ok None else sl b.pos (lb_len b))
+
+(** val notifies : movement -> bool **)
+
+let notifies = function
+| MBackwardChar _ -> false
+| MForwardChar _ -> false
+| _ -> true
+
+(** val kill : uData -> (str -> str list) -> movement -> bool m **)
+
+let kill u seg m0 =
+  bind (if notifies m0 then emit EStartKill else ret ()) (fun _ ->
+    bind
+      (match m0 with
+       | MWholeLine -> bind move_home (fun _ -> kill_line seg)
+       | MBeginningOfLine -> discard_line seg
+       | MEndOfLine -> kill_line seg
+       | MBackwardWord (n0, w) -> delete_prev_word u seg w n0
+       | MForwardWord (n0, a, w) -> delete_word u seg a w n0
+       | MViCharSearch (n0, cs) -> delete_to seg cs n0
+       | MViFirstPrint ->
+         bind get (fun b ->
+           bind (lift (vi_first_print_pos u seg b)) (fun r ->
+             match r with
+             | Some p ->
+               if Nat.ltb p b.pos
+               then bind (drain p b.pos DBackward) (fun _ ->
+                      bind (put_pos p) (fun _ -> ret true))
+               else if Nat.ltb b.pos p
+                    then bind (drain b.pos p DForward) (fun _ -> ret true)
+                    else ret false
+             | None -> ret false))
+       | MBackwardChar n0 -> backspace seg n0
+       | MForwardChar n0 ->
+         bind (delete seg n0) (fun r ->
+           ret (match r with
+                | Some _ -> true
+                | None -> false))
+       | MLineUp n0 ->
+         bind get (fun b ->
+           bind (lift (n_lines_up b n0)) (fun r ->
+             match r with
+             | Some p ->
+               let (s, e) = p in bind (delete_range s e) (fun _ -> ret true)
+             | None -> ret false))
+       | MLineDown n0 ->
+         bind get (fun b ->
+           bind (lift (n_lines_down b n0)) (fun r ->
+             match r with
+             | Some p ->
+               let (s, e) = p in bind (delete_range s e) (fun _ -> ret true)
+             | None -> ret false))
+       | MWholeBuffer -> bind move_buffer_start (fun _ -> kill_buffer)
+       | MBeginningOfBuffer -> discard_buffer
+       | MEndOfBuffer -> kill_buffer) (fun killed ->
+      bind (if notifies m0 then emit EStopKill else ret ()) (fun _ ->
+        ret killed)))
+
+(** val split_lf : str -> str -> str list **)
+
+let rec split_lf s cur =
+  match s with
+  | [] -> (rev cur) :: []
+  | c :: t ->
+    if N.eqb c lF then (rev cur) :: (split_lf t []) else split_lf t (c :: cur)
+
+(** val leading_ws_bytes : uData -> str -> nat **)
+
+let rec leading_ws_bytes u = function
+| [] -> O
+| c :: t ->
+  if u.u_is_whitespace c then add (clen c) (leading_ws_bytes u t) else O
+
+(** val dedent_lines : uData -> str list -> nat -> nat -> unit m **)
+
+let rec dedent_lines u lines amount index =
+  match lines with
+  | [] -> ret ()
+  | line :: t ->
+    let mx = leading_ws_bytes u line in
+    let deleting =
+      boundary_down line (S (Nat.min mx amount)) (Nat.min mx amount)
+    in
+    bind (drain index (add index deleting) DForward) (fun _ ->
+      bind get (fun b ->
+        bind
+          (if Nat.leb index b.pos
+           then if Nat.ltb (sub b.pos index) deleting
+                then put_pos index
+                else put_pos (sub b.pos deleting)
+           else ret ()) (fun _ ->
+          dedent_lines u t amount
+            (sub (add (add index (blen line)) (S O)) deleting))))
+
+(** val indent_chunks : nat -> nat -> nat -> nat -> unit m **)
+
+let rec indent_chunks amount off fuel index =
+  match fuel with
+  | O -> ret ()
+  | S f ->
+    if Nat.ltb off amount
+    then bind
+           (insert_str index
+             (repeat (Npos (XO (XO (XO (XO (XO XH))))))
+               (Nat.min (sub amount off) indent_max))) (fun _ ->
+           indent_chunks amount (add off indent_max) f index)
+    else ret ()
+
+(** val indent_lines : str list -> nat -> nat -> unit m **)
+
+let rec indent_lines lines amount index =
+  match lines with
+  | [] -> ret ()
+  | line :: t ->
+    bind (indent_chunks amount O (S amount) index) (fun _ ->
+      bind get (fun b ->
+        bind
+          (if Nat.leb index b.pos then put_pos (add b.pos amount) else ret ())
+          (fun _ ->
+          indent_lines t amount
+            (add (add (add index amount) (blen line)) (S O)))))
+
+(** val indent :
+    uData -> (str -> str list) -> movement -> nat -> bool -> bool m **)
+
+let indent u seg m0 amount dedent =
+  bind get (fun b ->
+    bind
+      (lift
+        (match m0 with
+         | MBackwardWord (n0, w) ->
+           (match prev_word_pos u seg b b.pos w n0 with
+            | Ok a ->
+              (match a with
+               | Some p -> Ok (Some (p, b.pos))
+               | None -> Ok None)
+            | Panic -> Panic)
+         | MForwardWord (n0, a, w) ->
+           (match next_word_pos u seg b b.pos a w n0 with
+            | Ok a0 ->
+              (match a0 with
+               | Some p -> Ok (Some (b.pos, p))
+               | None -> Ok None)
+            | Panic -> Panic)
+         | MLineUp n0 -> n_lines_up b n0
+         | MLineDown n0 -> n_lines_down b n0
+         | MWholeBuffer -> Ok (Some (O, (lb_len b)))
+         | MBeginningOfBuffer -> Ok (Some (O, b.pos))
+         | MEndOfBuffer -> Ok (Some (b.pos, (lb_len b)))
+         | _ -> Ok (Some (b.pos, b.pos)))) (fun pr ->
+      let (s0, e0) = match pr with
+                     | Some p -> p
+                     | None -> (b.pos, b.pos) in
+      bind (lift (slice_to b.buf s0)) (fun l ->
+        let start =
+          match rfind_char lF l with
+          | Some p -> add p (S O)
+          | None -> O
+        in
+        bind (lift (slice_from b.buf e0)) (fun r ->
+          let e =
+            match rfind_char lF r with
+            | Some p -> add e0 p
+            | None -> lb_len b
+          in
+          bind (lift (slice b.buf start e)) (fun text ->
+            bind
+              (if dedent
+               then dedent_lines u (split_lf text []) amount start
+               else indent_lines (split_lf text []) amount start) (fun _ ->
+              ret true))))))
+
+(** val line_up_loop : str -> nat -> nat -> nat -> (nat * nat) res **)
+
+let rec line_up_loop s k dest_start dest_end =
+  match k with
+  | O -> Ok (dest_start, dest_end)
+  | S k' ->
+    if Nat.eqb dest_start O
+    then Ok (dest_start, dest_end)
+    else let de = sub dest_start (S O) in
+         (match slice_to s de with
+          | Ok l ->
+            line_up_loop s k'
+              (match rfind_char lF l with
+               | Some n0 -> add n0 (S O)
+               | None -> O) de
+          | Panic -> Panic)
+
+(** val move_to_line_up :
+    (str -> str list) -> (str -> nat) -> nat -> nat -> bool m **)
+
+let move_to_line_up seg width n0 prompt_col =
+  bind get (fun b ->
+    bind (lift (slice_to b.buf b.pos)) (fun l ->
+      match rfind_char lF l with
+      | Some off ->
+        bind (lift (slice b.buf (add off (S O)) b.pos)) (fun cur ->
+          let column = width cur in
+          bind (lift (slice_to b.buf off)) (fun l2 ->
+            let ds0 =
+              match rfind_char lF l2 with
+              | Some k -> add k (S O)
+              | None -> O
+            in
+            bind (lift (line_up_loop b.buf (sub n0 (S O)) ds0 off))
+              (fun se ->
+              let (ds, de) = se in
+              let offset = if Nat.eqb ds O then prompt_col else O in
+              bind (lift (slice b.buf ds de)) (fun dest ->
+                bind
+                  (put_pos
+                    (match nth_error (gindices seg dest) (sub column offset) with
+                     | Some p -> let (idx, _) = p in add ds idx
+                     | None -> de)) (fun _ -> ret true)))))
+      | None -> ret false))
+
+(** val line_down_loop :
+    str -> nat -> nat -> nat -> nat -> (nat * nat) res **)
+
+let rec line_down_loop s len k dest_start dest_end =
+  match k with
+  | O -> Ok (dest_start, dest_end)
+  | S k' ->
+    if Nat.eqb dest_end len
+    then Ok (dest_start, dest_end)
+    else let ds = add dest_end (S O) in
+         (match slice_from s ds with
+          | Ok r ->
+            line_down_loop s len k' ds
+              (match find_char lF r with
+               | Some v -> add ds v
+               | None -> len)
+          | Panic -> Panic)
+
+(** val move_to_line_down :
+    (str -> str list) -> (str -> nat) -> nat -> nat -> bool m **)
+
+let move_to_line_down seg width n0 prompt_col =
+  bind get (fun b ->
+    bind (lift (slice_from b.buf b.pos)) (fun r ->
+      match find_char lF r with
+      | Some off ->
+        bind (lift (slice_to b.buf b.pos)) (fun l ->
+          let line_start =
+            match rfind_char lF l with
+            | Some k -> add k (S O)
+            | None -> O
+          in
+          let offset = if Nat.eqb line_start O then prompt_col else O in
+          bind (lift (slice b.buf line_start b.pos)) (fun cur ->
+            let column = add (width cur) offset in
+            let ds0 = add (add b.pos off) (S O) in
+            bind (lift (slice_from b.buf ds0)) (fun r2 ->
+              let de0 =
+                match find_char lF r2 with
+                | Some v -> add ds0 v
+                | None -> lb_len b
+              in
+              bind
+                (lift
+                  (line_down_loop b.buf (lb_len b) (sub n0 (S O)) ds0 de0))
+                (fun se ->
+                let (ds, de) = se in
+                bind (lift (slice b.buf ds de)) (fun dest ->
+                  bind
+                    (put_pos
+                      (match nth_error (gindices seg dest) column with
+                       | Some p -> let (idx, _) = p in add ds idx
+                       | None -> de)) (fun _ -> ret true))))))
+      | None -> ret false))
+
+type lbop =
+| OpIns of n * nat
+| OpYank of str * nat
+| OpYankPop of nat * str
+| OpMoveBackward of nat
+| OpMoveForward of nat
+| OpBufferStart
+| OpBufferEnd
+| OpHome
+| OpEnd
+| OpIsEndOfInput
+| OpDelete of nat
+| OpBackspace of nat
+| OpKillLine
+| OpKillBuffer
+| OpDiscardLine
+| OpDiscardBuffer
+| OpTransposeChars
+| OpPrevWord of word_def * nat
+| OpDeletePrevWord of word_def * nat
+| OpNextWord of at_pos * word_def * nat
+| OpMoveTo of char_search * nat
+| OpDeleteWord of at_pos * word_def * nat
+| OpDeleteTo of char_search * nat
+| OpEditWord of word_action
+| OpTransposeWords of nat
+| OpReplace of nat * nat * str
+| OpInsertStr of nat * str
+| OpDeleteRange of nat * nat
+| OpCopy of movement
+| OpKill of movement
+| OpIndent of movement * nat * bool
+| OpUpdate of str * nat
+| OpSetPos of nat
+| OpNextPos of nat
+
+type lbret =
+| RUnit
+| RBool of bool
+| ROptBool of bool option
+| ROptStr of str option
+| ROptNat of nat option
+
+(** val mapM : ('a1 -> 'a2) -> 'a1 m -> 'a2 m **)
+
+let mapM f m0 =
+  bind m0 (fun a -> ret (f a))
+
+(** val pureM : (lb -> 'a1 res) -> 'a1 m **)
+
+let pureM f =
+  bind get (fun b -> lift (f b))
+
+(** val lb_apply : uData -> (str -> str list) -> lbop -> lbret m **)
+
+let lb_apply u seg = function
+| OpIns (c, n0) -> mapM (fun x -> ROptBool x) (insert c n0)
+| OpYank (s, n0) -> mapM (fun x -> ROptBool x) (yank s n0)
+| OpYankPop (k, s) -> mapM (fun x -> ROptBool x) (yank_pop k s)
+| OpMoveBackward n0 -> mapM (fun x -> RBool x) (move_backward seg n0)
+| OpMoveForward n0 -> mapM (fun x -> RBool x) (move_forward seg n0)
+| OpBufferStart -> mapM (fun x -> RBool x) move_buffer_start
+| OpBufferEnd -> mapM (fun x -> RBool x) move_buffer_end
+| OpHome -> mapM (fun x -> RBool x) move_home
+| OpEnd -> mapM (fun x -> RBool x) move_end
+| OpIsEndOfInput -> pureM (fun b -> Ok (RBool (is_end_of_input u b)))
+| OpDelete n0 -> mapM (fun x -> ROptStr x) (delete seg n0)
+| OpBackspace n0 -> mapM (fun x -> RBool x) (backspace seg n0)
+| OpKillLine -> mapM (fun x -> RBool x) (kill_line seg)
+| OpKillBuffer -> mapM (fun x -> RBool x) kill_buffer
+| OpDiscardLine -> mapM (fun x -> RBool x) (discard_line seg)
+| OpDiscardBuffer -> mapM (fun x -> RBool x) discard_buffer
+| OpTransposeChars -> mapM (fun x -> RBool x) (transpose_chars seg)
+| OpPrevWord (w, n0) -> mapM (fun x -> RBool x) (move_to_prev_word u seg w n0)
+| OpDeletePrevWord (w, n0) ->
+  mapM (fun x -> RBool x) (delete_prev_word u seg w n0)
+| OpNextWord (a, w, n0) ->
+  mapM (fun x -> RBool x) (move_to_next_word u seg a w n0)
+| OpMoveTo (cs, n0) -> mapM (fun x -> RBool x) (move_to seg cs n0)
+| OpDeleteWord (a, w, n0) ->
+  mapM (fun x -> RBool x) (delete_word u seg a w n0)
+| OpDeleteTo (cs, n0) -> mapM (fun x -> RBool x) (delete_to seg cs n0)
+| OpEditWord a -> mapM (fun x -> RBool x) (edit_word u seg a)
+| OpTransposeWords n0 -> mapM (fun x -> RBool x) (transpose_words u seg n0)
+| OpReplace (a, b, s) -> mapM (fun _ -> RUnit) (replace a b s)
+| OpInsertStr (i, s) -> mapM (fun x -> RBool x) (insert_str i s)
+| OpDeleteRange (a, b) -> mapM (fun _ -> RUnit) (delete_range a b)
+| OpCopy m0 ->
+  pureM (fun b ->
+    match copy u seg b m0 with
+    | Ok r -> Ok (ROptStr r)
+    | Panic -> Panic)
+| OpKill m0 -> mapM (fun x -> RBool x) (kill u seg m0)
+| OpIndent (m0, a, d) -> mapM (fun x -> RBool x) (indent u seg m0 a d)
+| OpUpdate (s, p) -> mapM (fun _ -> RUnit) (update s p)
+| OpSetPos p -> mapM (fun _ -> RUnit) (set_pos p)
+| OpNextPos n0 ->
+  pureM (fun b ->
+    match next_pos seg b n0 with
+    | Ok r -> Ok (ROptNat r)
+    | Panic -> Panic)
+
+(** val lb_run :
+    uData -> (str -> str list) -> lbop list -> lb -> ((lbret * lb) * event
+    list) option list **)
+
+let rec lb_run u seg ops b =
+  match ops with
+  | [] -> []
+  | o :: t ->
+    (match lb_apply u seg o b with
+     | Ok a ->
+       let (p, ev) = a in
+       let (r, b') = p in (Some ((r, b'), ev)) :: (lb_run u seg t b')
+     | Panic -> None :: [])
